@@ -107,3 +107,70 @@ class NpShim:
             sh = int(shift) % n
             return SArr([x.items[(i - sh) % n] for i in range(n)])
         return _np.roll(x, shift, *a, **k)
+
+    # -- further reductions / predicates a (changed) solver loop may reasonably use ---------------------------
+    def isnan(self, x, *a, **k):
+        if isinstance(x, SArr):
+            self._count('isnan')
+            return SArr([v.isnan() for v in x.items], 'b')
+        if isinstance(x, SFloat):
+            return x.isnan()
+        return _np.isnan(x, *a, **k)
+
+    def isinf(self, x, *a, **k):
+        if isinstance(x, SArr):
+            self._count('isinf')
+            return SArr([SBool(z3.fpIsInf(v.t)) for v in x.items], 'b')
+        if isinstance(x, SFloat):
+            return SBool(z3.fpIsInf(x.t))
+        return _np.isinf(x, *a, **k)
+
+    def isclose(self, a, b, rtol=1e-05, atol=1e-08, equal_nan=False):
+        if isinstance(a, (SArr, SFloat)) or isinstance(b, (SArr, SFloat)):
+            self._count('isclose')
+            A = a if isinstance(a, SArr) else SArr([a] * (len(b) if isinstance(b, SArr) else 1))
+            Bv = A._zip(b)
+            out = []
+            for x, y in zip(A.items, Bv):
+                y = _sf(y)
+                bound = _sf(atol) if rtol == 0 else _sf(atol) + _sf(rtol) * abs(y)
+                near = (abs(x - y) <= bound) & x.isfinite() & y.isfinite()
+                same_inf = SBool(z3.And(z3.fpIsInf(x.t), z3.fpIsInf(y.t), z3.fpEQ(x.t, y.t)))
+                res = near | same_inf
+                if equal_nan:
+                    res = res | (x.isnan() & y.isnan())
+                out.append(res)
+            return SArr(out, 'b')
+        return _np.isclose(a, b, rtol=rtol, atol=atol, equal_nan=equal_nan)
+
+    def allclose(self, a, b, rtol=1e-05, atol=1e-08, equal_nan=False):
+        if isinstance(a, (SArr, SFloat)) or isinstance(b, (SArr, SFloat)):
+            return self.isclose(a, b, rtol=rtol, atol=atol, equal_nan=equal_nan).all()
+        return _np.allclose(a, b, rtol=rtol, atol=atol, equal_nan=equal_nan)
+
+    def _fold(self, x, pick):
+        items = list(x.items)
+        if not items:
+            raise ValueError('zero-size array to reduction operation which has no identity')
+        acc = items[0]
+        for v in items[1:]:
+            acc = pick(acc, v)
+        return acc
+
+    def max(self, x, *a, **k):
+        if isinstance(x, SArr):
+            self._count('max')
+            from .values import _np_maximum
+            return self._fold(x, _np_maximum)
+        return _np.max(x, *a, **k)
+
+    amax = max
+
+    def min(self, x, *a, **k):
+        if isinstance(x, SArr):
+            self._count('min')
+            from .values import _np_minimum
+            return self._fold(x, _np_minimum)
+        return _np.min(x, *a, **k)
+
+    amin = min
